@@ -554,13 +554,21 @@ func (r *rewriter) rewriteSelect(n *ast.SelectStmt) ast.Stmt {
 		case *ast.SendStmt:
 			// Go evaluates the value on entry to the select; evaluating it in the chosen arm is
 			// equivalent only for side-effect free operands, so anything else is refused.
-			if !pureExpr(s.Value) {
-				broken("%s: send value in select is not a plain variable/field/address/literal", r.pos(cc))
-			}
 			pre = append(pre,
 				&ast.AssignStmt{Lhs: []ast.Expr{chv}, Tok: token.DEFINE, Rhs: []ast.Expr{s.Chan}},
 			)
 			vv := s.Value
+			if !pureExpr(s.Value) {
+				// Go evaluates every send value once, on entry to the select, in source order: an
+				// operand with possible side effects (a call, an index, ...) is bound to a temporary
+				// there. Its static type is the operand's own; the send converts it as before.
+				if tv, ok := r.info.Types[s.Value]; ok && tv.Value != nil {
+					broken("%s: constant expression as send value in select", r.pos(cc))
+				}
+				tmp := r.fresh("sv")
+				pre = append(pre, &ast.AssignStmt{Lhs: []ast.Expr{tmp}, Tok: token.DEFINE, Rhs: []ast.Expr{s.Value}})
+				vv = tmp
+			}
 			cases = append(cases, call(sched("SendCase"), chv))
 			op = &ast.SendStmt{Chan: chv, Value: vv}
 		case *ast.ExprStmt:
